@@ -84,9 +84,9 @@ theorem removeK_map (id : Nat) (l : List Holder) : removeK id (l.map key) = (rem
 /-! ## frames -/
 
 theorem admit_frame (s : State) (id : Nat) (r : Res) (t p : Path) :
-    (admit s id r t p).1.nHost = s.nHost ∧ (admit s id r t p).1.nInfo = s.nInfo ∧ (admit s id r t p).1.hosts = s.hosts ∧
-    (admit s id r t p).1.cur = s.cur := by
-  unfold admit
+    (acquire s id r t p).1.nHost = s.nHost ∧ (acquire s id r t p).1.nInfo = s.nInfo ∧ (acquire s id r t p).1.hosts = s.hosts ∧
+    (acquire s id r t p).1.cur = s.cur := by
+  unfold acquire
   by_cases hv : (validPath s t && validPath s p) = true
   · by_cases hc : canCreate (s.mgr (mgrOf s t)) r = true <;> simp [hv, hc]
   · simp [hv]
@@ -96,8 +96,8 @@ theorem release_frame (s : State) (id : Nat) :
   unfold release
   cases findId id s.live <;> simp
 
-theorem admit_max {s : State} (hi : Inv s) (id : Nat) (r : Res) (t p : Path) : ((admit s id r t p).1.mgr 0).max = (s.mgr 0).max := by
-  cases hb : (admit s id r t p).2 with
+theorem admit_max {s : State} (hi : Inv s) (id : Nat) (r : Res) (t p : Path) : ((acquire s id r t p).1.mgr 0).max = (s.mgr 0).max := by
+  cases hb : (acquire s id r t p).2 with
   | false => rw [admit_false hb]
   | true => rw [(admit_true hi hb).2.2]; simp [upd_same, incr_max]
 
@@ -107,8 +107,8 @@ theorem release_max {s : State} (hi : Inv s) (id : Nat) : ((release s id).mgr 0)
   | some h => rw [release_eq hi hf]; simp [upd_same, decr_max]
 
 theorem admit_live {s : State} (hi : Inv s) (id : Nat) (r : Res) (t p : Path) :
-    (admit s id r t p).1.live.map key = if (admit s id r t p).2 then s.live.map key ++ [(id, r)] else s.live.map key := by
-  cases hb : (admit s id r t p).2 with
+    (acquire s id r t p).1.live.map key = if (acquire s id r t p).2 then s.live.map key ++ [(id, r)] else s.live.map key := by
+  cases hb : (acquire s id r t p).2 with
   | false => rw [admit_false hb]; simp
   | true => rw [(admit_true hi hb).2.2]; simp [key]
 
@@ -130,7 +130,7 @@ theorem release_live {s : State} (hi : Inv s) (id : Nat) : (release s id).live.m
 /-- the limit trips exactly at the threshold, against the live holders -/
 theorem admit_ref {s : State} (hi : Inv s) (hl : Ledger s) (id : Nat) (r : Res) {t p : Path}
     (ht : validPath s t = true) (hp : validPath s p = true) :
-    (admit s id r t p).2 = refAdmits (s.mgr 0).max r (s.live.map key) := by
+    (acquire s id r t p).2 = refAdmits (s.mgr 0).max r (s.live.map key) := by
   rw [admit_outcome hi id r ht hp]
   have h := hl r
   simp only [refAdmits, countK_map]
@@ -226,8 +226,8 @@ theorem rel_route {h : Hist} {ρ : Ref} (hr : Rel h ρ) (k : Nat) : Rel ((objMac
 /-- one admission on cluster c1 through valid paths -/
 theorem rel_admitC {h : Hist} {ρ : Ref} (hr : Rel h ρ) (id : Nat) (r : Res) {t p : Path}
     (ht : validPath h.c t = true) (hp : validPath h.c p = true) (pool' : Option Nat) (hpool : ∀ q, pool' = some q → q < h.c.nHost) :
-    (admit h.c id r t p).2 = refAdmits ρ.thr r ρ.lv ∧
-    Rel { h with c := (admit h.c id r t p).1, pool := pool' }
+    (acquire h.c id r t p).2 = refAdmits ρ.thr r ρ.lv ∧
+    Rel { h with c := (acquire h.c id r t p).1, pool := pool' }
         (if refAdmits ρ.thr r ρ.lv then { ρ with lv := ρ.lv ++ [(id, r)] } else ρ) := by
   have ho := admit_ref hr.ic hr.lc id r ht hp
   rw [hr.mc, hr.kc] at ho
@@ -279,7 +279,7 @@ theorem rel_admitConn {h : Hist} {ρ : Ref} (hr : Rel h ρ) (j : Nat) :
   rw [ho, hr.kt] at hk
   have hrel : ∀ ρ' : Ref, ρ'.thr = ρ.thr → ρ'.lv = ρ.lv →
       ρ'.lvT = (if refAdmits ρ.thr .conn ρ.lvT = true then ρ.lvT ++ [(j, Res.conn)] else ρ.lvT) →
-      Rel { h with t := (admit h.t j .conn (.info h.t.cur) (.host (h.t.hosts.headD 0))).1 } ρ' := by
+      Rel { h with t := (acquire h.t j .conn (.info h.t.cur) (.host (h.t.hosts.headD 0))).1 } ρ' := by
     intro ρ' e1 e2 e3
     refine ⟨hr.ic, hr.lc, hr.gc, inv_admit hr.it _ _ _ _, ledger_admit hr.it hr.lt _ _ _ _, gauges_admit hr.it hr.gt _ _ _ _,
       ?_, ?_, ?_, ?_, hr.pool, hr.hc, ?_, hr.cap⟩
